@@ -375,3 +375,70 @@ def r02_7(ctx):
 
     r03_1(ctx)
     r03_2(ctx)
+
+
+def callback_operand_kind_independence(ctx):
+    """The conversion history and node a callback builds for its operands must not depend on what KIND of value an operand is
+    (register, variable, literal, cast, macro result, parameter, temporary ...): every expression callback is run once per value
+    class in each operand position and has to build the same thing as for a plain operand.  (Constant folding is switched off:
+    it is the one reviewed place where literals are treated differently, C09.)"""
+    from sa.larkmodel import get_grammar, transformer_callbacks
+
+    idx = get_index(ctx.env)
+    gm = get_grammar(ctx.env)
+    cbs = transformer_callbacks(idx)
+    classes = sorted(c for c in set(idx.subclasses("Pure")) | set(idx.subclasses("Hybrid")) if c in idx.classes)
+    ctx.need(len(classes) >= 15, f"value classes: only {len(classes)} found")
+    specs = []
+    for lit, cb, term in binary_productions(gm):
+        if cb in cbs:
+            specs.append((f"{cb}[{lit}]", cb, lambda r, a, b, term=term, lit=lit: [a, Tok(term, lit), b], (0, 2)))
+    specs.append(("conditional_expr", "conditional_expr", lambda r, a, b: [r.pure("items[0]"), a, b], (1, 2)))
+    for lit in ("~", "-", "!"):
+        specs.append((f"unary_expr[{lit}]", "unary_expr", lambda r, a, b, lit=lit: [Tok("UNARY_OP", lit), a], (1,)))
+    specs.append(("cast_expr", "cast_expr", lambda r, a, b: [mk_vt("T", False, 64), a], (1,)))
+    ctx.need(len(specs) >= 20, f"only {len(specs)} callback specs")
+
+    def run(cb, mk, ca, cb_cls, positions):
+        r = Runner(idx)
+        r.fold = False
+
+        def items():
+            ops = {}
+            for k, c in zip(positions, (ca, cb_cls)):
+                ops[k] = r.pure(f"items[{k}]", vt=mk_vt(f"t{k}", k == positions[0], 32 if k == positions[0] else 8), cls=c)
+            a = ops[positions[0]]
+            b = ops[positions[1]] if len(positions) > 1 else None
+            return mk(r, a, b)
+
+        fi, outs = r.run(cb, items)
+        res = set()
+        for o in outs:
+            if o.kind == "raise":
+                res.add("RAISE")
+            elif any(t.endswith(" folds") and v for t, v in o.decisions):
+                continue
+            else:
+                v = o.value
+                if isinstance(v, AObj) and "__ctor__" in v.fields:
+                    res.add(v.cls + "(" + ", ".join(f"{k}={lab(x)}" for k, x in sorted(v.fields["__ctor__"].items()) if k not in ("name",)) + ")")
+                else:
+                    res.add(lab(v))
+        return fi, res
+
+    for key, cb, mk, positions in specs:
+        fi, base = run(cb, mk, "Pure", "Pure", positions)
+        ctx.need(base and base != {"RAISE"}, f"{key}: no translating path for plain operands")
+        differing = []
+        for c in classes:
+            for pos in range(len(positions)):
+                ca, cbc = (c, "Pure") if pos == 0 else ("Pure", c)
+                _, got = run(cb, mk, ca, cbc, positions)
+                if got != base:
+                    differing.append(f"operand {positions[pos]} a {c}: {sorted(got)[:1]}")
+        ctx.check(f"{key} treats every kind of operand alike", not differing, f"the same result as for plain operands: {sorted(base)[:1]}", "; ".join(differing[:3]) or "ok", fn_where(idx, fi))
+
+
+@rule("R02.8", "C02", "operand-kind independence: what an expression callback builds does not depend on the class of its operands", min_instances=20)
+def r02_8(ctx):
+    callback_operand_kind_independence(ctx)
